@@ -305,7 +305,22 @@ pub fn step(ctx: &BuildContext<TestBp>, layers: &Path, scratch: &Path, names: &[
                             }
                             "env" => {
                                 let le = layer_env_of(&w["ins"]);
-                                on_ref!(r => r.write_env(&le))
+                                let res = on_ref!(r => r.write_env(&le));
+                                // LayerRef::read_env is by contract LayerEnv::read_from_layer_dir (decided by C03/C10) on the
+                                // layer's own directory; a difference is a failure of the code under test (reported as panic)
+                                let via_ref = on_ref!(r => r.read_env());
+                                let base = match lref {
+                                    Ref::Cached(r) => r.path(),
+                                    Ref::Uncached(r) => r.path(),
+                                };
+                                let direct = libcnb::layer_env::LayerEnv::read_from_layer_dir(&base);
+                                let same = match (&via_ref, &direct) {
+                                    (Ok(a), Ok(b)) => a == b,
+                                    (Err(_), Err(_)) => true,
+                                    _ => false,
+                                };
+                                assert!(same, "LayerRef::read_env differs from LayerEnv::read_from_layer_dir on {}", base.display());
+                                res
                             }
                             "sboms" => {
                                 let sb: Vec<Sbom> = w["l"].as_array().unwrap().iter().map(|x| Sbom::from_bytes(sbom_format(x[0].as_u64().unwrap()), bytes_of(&x[1]))).collect();
